@@ -260,7 +260,10 @@ class C16(Prop):
         "linkage_is_upgma", "linkage_well_formed", "linkage_parent_child", "linkage_cladesizes", "linkage_heights",
         "linkage_merge_reducible", "linkage_branch_lengths_nonneg", "linkage_branch_lengths_negative_at",
         "cPairId_xPairId_symm_range_empty", "pairMatch_empty", "jukesCantor_empty", "jukescantor_infinite_iff", "diffMx_spec",
-        "jukesCantorMx_spec", "avgConnectivity_spec", "avgSubsetConnectivity_is")]
+        "jukesCantorMx_spec", "avgConnectivity_spec", "avgSubsetConnectivity_is",
+        "quicksort_sorts", "quicksort_decreasing_weights", "idFilterAdv_keeps_preferred", "idFilterAdv_conscover", "idFilterAdv_random",
+        "idFilterAdv_origorder", "consensus_by_all_selects", "consensus_by_rf_selects", "consensus_by_sample_selects",
+        "pbAdv_consensus_cascade", "average_sampling_in_bounds", "average_all_empty", "linkage_additive_ultrametric", "idFilterAdv_consensus_cascade")]
     claimed = True
     technique = ("Lean 4 proof over the exact (Q) instance of a numeric-class-polymorphic executable model of esl_distance/esl_cluster/"
                  "esl_msacluster/esl_quicksort/esl_msaweight/esl_tree(UPGMA) + bit-exact differential correspondence of the Float instance "
@@ -275,6 +278,19 @@ class C16(Prop):
                   "permutation for any comparator (so the digital filter tries every row once, any preference rule); cluster sizes/count "
                   "consistent with the assignment; UPGMA joins a minimum pair each pass; rounded threshold tests at attained identities "
                   "decide like exact ones for any monotone rounding with error < 1/(2nq). "
+                  "Round 4: cluster_engine in ALL FOUR modes (UPGMA, WPGMA, single, complete linkage) returns, for every matrix, a well-formed "
+                  "rooted binary tree (parent/child/taxaparent/cladesize consistent) whose recorded join values never decrease (all four merge "
+                  "rules are reducible) and whose branch lengths are the linkage value resp. EXACT height differences (the 0-clamp never acts over Q), "
+                  ">= 0 whenever no distance is negative (counter-example with a negative entry proved); esl_quicksort SORTS for every reflexive, "
+                  "total, transitive comparison, hence each preference rule of IDFilter_adv keeps a representative it prefers at least as much "
+                  "(conscover: spans >= as many consensus columns; random: larger draw; origorder: IS the text rule 'keep the earlier row'); the "
+                  "consensus columns of PB_adv/IDFilter_adv are exactly those meeting the documented rule (RF / counts over all rows / counts over "
+                  "ANY sample, with the fragment rule; rejected sample <=> more than maxfrag fragments; cascade RF|sample -> all rows -> all columns); "
+                  "every public function of esl_distance.c in text and digital mode: PairId/PairMatch symmetric, in [0,1], 0 as soon as EITHER "
+                  "sequence has no residue; JukesCantor formula + variance over R, infinite iff identity fraction <= 1/K, eslEDIVZERO on a residue-free "
+                  "sequence; DiffMx = 1 - pid, symmetric, in [0,1], =1 against an empty row; JukesCantorMx symmetric, fails iff some pair fails; "
+                  "XAvgConnectivity = (XAverageId, fraction of pairs strictly above the threshold in [0,1]); XAvgSubsetConnectivity = the same on the "
+                  "rows V names; the sampling branches draw, for EVERY generator state, at most max_comparisons pairs of two different rows inside the alignment. "
                   "The hand model is tied to the working tree by an exact differential run (weights as bit patterns, thresholds equal to "
                   "attained identities) and property monitors recompute every claim independently on the implementation's output.")
     level_note = ("Theorems are about exact rational arithmetic (L1); the binary64 results differ by rounding (L0, monitors use 1e-9). "
@@ -395,7 +411,8 @@ class C16(Prop):
                     t = struct.unpack("<d", struct.pack("<Q", u))[0]
                 out.append(t)
             elif r < 0.75:
-                out.append(rng.choice([0.0, 1.0, 0.5, 0.62, 0.8, 0.25, 0.9, 1.0 / 3, 2.0 / 3, 0.1]))
+                out.append(rng.choice([0.0, 1.0, 0.5, 0.62, 0.8, 0.25, 0.9, 1.0 / 3, 2.0 / 3, 0.1, 0.0, 1.0,
+                                       -0.25, 1.5, 5e-324, float("nan")]))     # outside [0,1] / NaN: nothing or everything is linked
             else:
                 out.append(rng.random())
         return out
@@ -431,6 +448,11 @@ class C16(Prop):
                 i, j = rng.randrange(n), rng.randrange(n)
                 ops += ["pairid i=%d j=%d" % (i, j), "pairid i=%d j=%d" % (j, i)]
         ops.append("pairid i=%d j=%d" % (rng.randrange(n), rng.randrange(n)))
+        if rng.random() < 0.3:          # the optional outputs: any subset may be requested, the rest is passed NULL
+            i, j = rng.randrange(n), rng.randrange(n)
+            kk = "" if mode != "text" else " k=%d" % rng.choice([4, 20])
+            ops += ["pairid i=%d j=%d opt=%d" % (i, j, rng.randrange(8)), "pairmatch i=%d j=%d opt=%d" % (i, j, rng.randrange(8)),
+                    "jc i=%d j=%d%s opt=%d" % (i, j, kk, rng.randrange(4))]
         for _ in range(rng.randrange(0, 3)):
             i, j = rng.randrange(n), rng.randrange(n)
             kk = "" if mode != "text" else " k=%d" % rng.choice([4, 20, 2, 26, 3])
@@ -443,7 +465,7 @@ class C16(Prop):
                 if mx > 3000 and n * n > 2 * mx: mx = 3000        # sampling branch: bounded work
                 ops.append("%s max=%d" % (rng.choice(["avgid", "avgid", "avgmatch"]), mx))
         if n <= 40 and rng.random() < 0.35:
-            ops.append("jcmx" + ("" if mode != "text" else " k=%d" % rng.choice([4, 20, 2, 26, 3])))
+            ops.append("jcmx" + ("" if mode != "text" else " k=%d" % rng.choice([4, 20, 2, 26, 3])) + rng.choice(["", "", " opt=1", " opt=2", " opt=0"]))
         if mode != "text" and rng.random() < 0.5:
             ops += self.conn_ops(rng, n, th)
         if n <= 40 and rng.random() < 0.5: ops.append("pairidmx")
@@ -544,7 +566,10 @@ class C16(Prop):
         th = self.thresholds(rng, aln, 2)
         for m in (1000000, 1, max(1, n * n // 2 - 1)):
             ops += ["avgid max=%d" % m, "avgmatch max=%d" % m]
-        ops += ["pairidmx", "diffmx", "jcmx" + kk]
+        ops += ["pairidmx", "diffmx", "jcmx" + kk, "jcmx" + kk + " opt=%d" % rng.randrange(3)]
+        i, j = rng.randrange(n), rng.randrange(n)
+        ops += ["pairid i=%d j=%d opt=%d" % (i, j, rng.randrange(7)), "pairmatch i=%d j=%d opt=%d" % (i, j, rng.randrange(7)),
+                "jc i=%d j=%d%s opt=%d" % (i, j, kk, rng.randrange(3))]
         for t in (z, dbits(th[0]), dbits(1.0)):
             ops += ["slink maxid=" + t, "blosum maxid=" + t, "idfilter maxid=" + t]
         ops += ["pb", "gsc", "multi seq=pgb maxid=" + z, "multi seq=bpg maxid=" + z]
@@ -882,7 +907,7 @@ class C16(Prop):
                     a, b = rows[int(kv["i"])], rows[int(kv["j"])]
                     parts = [l, None] if w[0] == "pairmatch" else [None, l]
                 K = int(kv.get("k", 4)) if aln.mode == "text" else ABC[aln.mode][0]
-                r_ = self._check_distpair(aln, a, b, K, parts)
+                r_ = self._check_distpair(aln, a, b, K, parts, int(kv.get("opt", 7 if w[0] != "jc" else 3)) if w[0] != "distpair" else None)
                 if r_: return Failure("monitor", r_)
                 cnt(w[0]); continue
             if w[0] in ("avgconn", "avgsub"):
@@ -892,7 +917,7 @@ class C16(Prop):
                 cnt(w[0]); continue
             if w[0] == "jcmx":
                 K = int(kv.get("k", 4)) if aln.mode == "text" else ABC[aln.mode][0]
-                r_ = self._check_jcmx(aln, K, l)
+                r_ = self._check_jcmx(aln, K, l, int(kv.get("opt", 3)))
                 if r_: return Failure("monitor", "JukesCantorMx: " + r_)
                 cnt("jcmx"); continue
             if w[0] in ("avgid", "avgmatch"):
@@ -903,8 +928,9 @@ class C16(Prop):
                 i, j = int(kv["i"]), int(kv["j"])
                 nid, nn = aln.pair(rows[i], rows[j])
                 pid = nid / nn if nn else 0.0
-                exp = "ok %s %d %d" % (dbits(pid), nid, nn)
-                if l != exp: return Failure("monitor", "PairId(%d,%d): got %r, definition gives %r" % (i, j, l, exp))
+                opt = int(kv.get("opt", 7))
+                exp = "ok %s %d %d" % (dbits(pid if opt & 1 else -1.0), nid if opt & 2 else -1, nn if opt & 4 else -1)
+                if l != exp: return Failure("monitor", "PairId(%d,%d)%s: got %r, definition gives %r" % (i, j, "" if opt == 7 else " with outputs %d requested" % opt, l, exp))
                 if rows[i] == rows[j] and nn > 0 and pid != 1.0: return Failure("monitor", "PairId of equal rows is not 1")
                 cnt("pairid"); continue
             if not l.startswith("ok "):
@@ -1068,7 +1094,7 @@ class C16(Prop):
                 cnt("perm-" + name)
         return None
 
-    def _check_distpair(self, aln, a, b, K, parts):
+    def _check_distpair(self, aln, a, b, K, parts, opt=None):
         import math
         inf = dbits(float("inf"))
         if parts[0] is not None:
@@ -1076,7 +1102,26 @@ class C16(Prop):
             else:
                 nm, ln = aln.pmatch(a, b)
                 exp = "ok %s %d %d" % (dbits(nm / ln if ln else 0.0), nm, ln)
+            if opt is not None and opt != 7:
+                e = exp.split()
+                exp = " ".join([e[0], e[1] if opt & 1 else dbits(-1.0), e[2] if opt & 2 else "-1", e[3] if opt & 4 else "-1"])
             if parts[0] != exp: return "PairMatch: got %r, definition (both residues / either residue) gives %r" % (parts[0], exp)
+        if parts[1] is not None and opt is not None and opt != 3:
+            # an output that was not requested must stay untouched; the requested one is judged below through a completed line
+            f = parts[1].split()
+            m1 = dbits(-1.0)
+            if len(f) != 3 or (not opt & 1 and f[1] != m1) or (not opt & 2 and f[2] != m1): return "JukesCantor wrote an output that was not requested: %r" % parts[1]
+            if opt == 0: return None
+            n1, n2 = aln.jc_counts(a, b) if len(a) == len(b) else (0, 0)
+            if len(a) != len(b) or n1 + n2 == 0 or Fraction(n2, n1 + n2) * K >= K - 1:
+                want = [("einval" if len(a) != len(b) else "edivzero" if n1 + n2 == 0 else "ok"), inf if opt & 1 else m1, inf if opt & 2 else m1]
+                return None if f == want else "JukesCantor (outputs %d requested) returned %r, expected %r" % (opt, parts[1], " ".join(want))
+            D = Fraction(n2, n1 + n2)
+            ed = -math.log(1.0 - float(D) * K / (K - 1.0)) * K / (K - 1.0)
+            ev = math.exp(2.0 * K * ed / (K - 1.0)) * float(D) * (1.0 - float(D)) / (n1 + n2)
+            if f[0] != "ok" or (opt & 1 and not close(undbits(f[1]), ed, 1e-9)) or (opt & 2 and not close(undbits(f[2]), ev, 1e-9)):
+                return "JukesCantor (outputs %d requested) = %r; formula gives %r, %r" % (opt, parts[1], ed, ev)
+            return None
         if parts[1] is not None:
             f = parts[1].split()
             if len(a) != len(b):
@@ -1128,7 +1173,7 @@ class C16(Prop):
         if not close(avgconn, float(econn), 1e-12) or not (0.0 <= avgconn <= 1.0): return "average connectivity at threshold %r is %r, definition gives %r" % (th, avgconn, float(econn))
         return None
 
-    def _check_jcmx(self, aln, K, l):
+    def _check_jcmx(self, aln, K, l, opt=3):
         import math
         rows, n = aln.rows, len(aln.rows)
         cnts = {(i, j): aln.jc_counts(rows[i], rows[j]) for i in range(n) for j in range(i + 1, n)}
@@ -1137,9 +1182,18 @@ class C16(Prop):
             return None
         f = dict(x.split("=", 1) for x in l.split()[1:] if "=" in x)
         if not l.startswith("ok ") or "d" not in f or "v" not in f: return "returned %r" % l[:60]
-        D = [undbits(x) for x in f["d"].split(",")] if f["d"] != "-" else []
-        V = [undbits(x) for x in f["v"].split(",")] if f["v"] != "-" else []
-        if len(D) != n * n or len(V) != n * n: return "matrix sizes"
+        D = [undbits(x) for x in f["d"].split(",")] if f["d"] != "-" else None
+        V = [undbits(x) for x in f["v"].split(",")] if f["v"] != "-" else None
+        if (D is None) != (not opt & 1) or (V is None) != (not opt & 2): return "matrices returned do not match those requested (%d): %s" % (opt, l[:60])
+        if (D is not None and len(D) != n * n) or (V is not None and len(V) != n * n): return "matrix sizes"
+        if D is None or V is None:
+            # judge the one that was returned against the other's formula-free properties only: diagonal 0, symmetric, >= 0
+            M = D if D is not None else V
+            for i in range(n if M is not None else 0):
+                if M[i * n + i] != 0.0: return "diagonal entry %d is not 0" % i
+                for j in range(i + 1, n):
+                    if M[i * n + j] != M[j * n + i] or not M[i * n + j] >= 0: return "entry %d,%d not symmetric / negative" % (i, j)
+            return None
         for i in range(n):
             if D[i * n + i] != 0.0 or V[i * n + i] != 0.0: return "diagonal entry %d is not 0" % i
             for j in range(i + 1, n):
